@@ -326,6 +326,14 @@ func runC18draw(t *rapid.T) {
 	charset := rapid.SampledFrom(simCharsets()).Draw(t, "charset")
 	cs := simEncoding(charset)
 	ops := drawOps(t, 12, 6, false)
+	// fallback registrations on this screen (they are this screen's: the
+	// package-level table every screen starts from must not change)
+	for i, nfb := 0, rapid.IntRange(0, 2).Draw(t, "nfallbackops"); i < nfb; i++ {
+		o := op{Kind: rapid.SampledFrom([]string{"unregfb", "unregfb", "regfb"}).Draw(t, "fbop"),
+			R: rapid.SampledFrom([]rune{tcell.RuneHLine, tcell.RuneVLine, tcell.RuneULCorner, tcell.RuneBullet, tcell.RuneDegree, tcell.RuneBlock, 0x4e00}).Draw(t, "fbrune")}
+		at := rapid.IntRange(0, len(ops)).Draw(t, "fbat")
+		ops = append(ops[:at], append([]op{o}, ops[at:]...)...)
+	}
 	w0, h0 := rapid.IntRange(1, 12).Draw(t, "w"), rapid.IntRange(1, 6).Draw(t, "h")
 	hx.Arm("C18")
 	defer hx.Disarm()
@@ -343,8 +351,14 @@ func runC18draw(t *rapid.T) {
 		s.Shutdown()
 		t.Fatalf("HARNESS: %v", err)
 	}
+	for k := range tcell.RuneFallbacks {
+		delete(tcell.RuneFallbacks, k)
+	}
+	for k, v := range pristineFallbacks {
+		tcell.RuneFallbacks[k] = v
+	}
 	fallbacks := map[rune]string{}
-	for k, v := range tcell.RuneFallbacks {
+	for k, v := range pristineFallbacks {
 		fallbacks[k] = v
 	}
 	m := lm.New(80, 25)
@@ -433,6 +447,25 @@ func runC18draw(t *rapid.T) {
 			case "fill":
 				ss.Fill(o.R, o.St.Build())
 				m.Fill(o.R, o.St)
+			case "regfb", "unregfb":
+				if o.Kind == "regfb" {
+					ss.RegisterRuneFallback(o.R, "+")
+					fallbacks[o.R] = "+"
+				} else {
+					ss.UnregisterRuneFallback(o.R)
+					delete(fallbacks, o.R)
+				}
+				// takes effect at the next draw: have the cells that hold the rune drawn again
+				for i := range m.Cells {
+					if c := &m.Cells[i]; c.R == o.R && !c.Locked {
+						x, y := i%m.W, i/m.W
+						r, comb, st := c.R, append([]rune(nil), c.Comb...), c.St
+						ss.SetContent(x, y, ' ', nil, st.Build())
+						m.SetContent(x, y, ' ', nil, st)
+						ss.SetContent(x, y, r, comb, st.Build())
+						m.SetContent(x, y, r, comb, st)
+					}
+				}
 			case "clear":
 				ss.Clear()
 				m.Fill(' ', lm.Style{})
@@ -497,6 +530,9 @@ func runC18draw(t *rapid.T) {
 		} else if !g.Done() {
 			mk("C18/deadlock", "%s never finishes: %v", g.Name, s.Blocked())
 		}
+	}
+	if d := fallbackTableDiff(); d != "" {
+		mk("C18/bytes", "a fallback registration made on one simulation screen changed the package-level RuneFallbacks table, which every other screen starts from: %s", d)
 	}
 	hx.St.Record(s, map[string]int{}, nil)
 	hx.St.Enumerated["C18 draw histories replayed on the simulator"]++
